@@ -197,6 +197,28 @@ def exec_op(w, op):
             for name, ts in op[7]:
                 kw[name] = [x for x in (w.fetch(t[0], t[1]) for t in ts) if x is not None]
             E(**kw); return ['ok', None]
+        if k == 'seedwrite':
+            # load-path variants x write-before-read: an object reached through a reference (an unloaded reference unless the strategy loaded it eagerly)
+            # gets a plain attribute WRITTEN before anything of it is read; then something loads its row while flushing is disabled:
+            # a relationship assignment on it / a collection change on it / its deletion / the batch load caused by another unloaded reference
+            e, pk, refname, scalar, value, action = op[1:7]
+            o = w.fetch(e, pk)
+            if o is None: return ['absent']
+            extra = [None if a is None else w.fetch(a[0], a[1]) for a in op[7]]     # everything the action needs is cached BEFORE the write: no query (hence no flush) later
+            t = getattr(o, refname)
+            if t is None: return ['ok', 'no target']
+            setattr(t, scalar, value)
+            if action == 'setref': setattr(t, op[8], extra[0])
+            elif action in ('add', 'remove'):
+                if extra[0] is None: return ['absent']
+                getattr(getattr(t, op[8]), action)(extra[0])
+            elif action == 'delete': t.delete(); return ['ok', 'deleted']
+            elif action == 'other':
+                if extra[0] is None: return ['absent']
+                t2 = getattr(extra[0], refname)
+                if t2 is not None and t2 is not t: setattr(t2, op[8], extra[1])
+            elif action == 'read': pass
+            return ['ok', [canon_val(w, getattr(t, scalar)), canon_val(w, getattr(t, 'tag')), canon_val(w, getattr(t, 'v')), canon_val(w, getattr(t, 's'))]]
         if k == 'navsetref':
             o = w.fetch(op[1], op[2])
             if o is None: return ['absent']
@@ -341,9 +363,26 @@ def gen_mod(rng, schema):
     e = rng.randrange(len(schema['ents']))
     pk = rng.choice(pks_of(schema, e))
     kinds = ['set', 'set', 'create', 'delete', 'flush', 'commit', 'rollback']
-    if refs[e]: kinds += ['setref', 'setref', 'navsetref']
+    if refs[e]: kinds += ['setref', 'setref', 'navsetref', 'seedwrite', 'seedwrite', 'seedwrite']
     if colls[e]: kinds += ['add', 'add', 'remove']
     k = rng.choice(kinds)
+    if k == 'seedwrite':
+        name, t, req = rng.choice(refs[e])
+        scalar = rng.choice(['tag', 'v', 's'])
+        value = {'tag': rng.choice([7, 8]), 'v': rng.choice([None, 9, 6]), 's': rng.choice(['w1', 'w2', None])}[scalar]
+        acts = ['read', 'delete']
+        if refs[t]: acts += ['setref', 'setref', 'other']
+        if colls[t]: acts += ['add', 'remove']
+        action = rng.choice(acts)
+        if action in ('setref', 'other'):
+            n2, t2, req2 = rng.choice(refs[t])
+            tgt = [t2, rng.choice(pks_of(schema, t2))]
+            extra = [tgt] if action == 'setref' else [[e, rng.choice(pks_of(schema, e))], tgt]
+            return ['seedwrite', e, pk, name, scalar, value, action, extra, n2]
+        if action in ('add', 'remove'):
+            n2, t2 = rng.choice(colls[t])
+            return ['seedwrite', e, pk, name, scalar, value, action, [[t2, rng.choice(pks_of(schema, t2))]], n2]
+        return ['seedwrite', e, pk, name, scalar, value, action, [], None]
     if k == 'navsetref':
         name, t, req = rng.choice(refs[e])
         if not refs[t]: k = 'setref'
@@ -704,6 +743,7 @@ def run(ctx):
     try:
         n = ctx.scale(220, 3000)
         found = 0
+        base_keys = len(ctx.violations) + len(ctx.known_hits)
         for it in range(n):
             for attempt in range(20):
                 schema = gen_schema(rng)
@@ -723,7 +763,7 @@ def run(ctx):
             d = first_diff(logs)
             if d is not None:
                 found += 1
-                if found <= 4: report(ctx, schema, population, hist, base, d)
+                if found <= 30 and len(ctx.violations) + len(ctx.known_hits) - base_keys < 5: report(ctx, schema, population, hist, base, d)
         ctx.count('histories', n)
         Tie.flush_pending(ctx)
     finally:
